@@ -120,11 +120,23 @@ def check_case(case) -> Result:
         elif p0 >= pb:
             ordered("C12/fvf-falls-above", "Bo must fall with pressure above p_b", bo[k + 1], bo[k], p0, p1, bo[k])
     # ---- the same relations through the array branches (float64 grid and an integer grid of whole psi) --------
+    grids = []
     for label, arr in (("float64 array", np.array(ps, float)), ("int64 array", np.unique(np.array([int(round(q)) for q in ps if q >= 15.5], dtype=np.int64)))):
+        # the pressures in ascending order, as a depletion path (descending) and in no particular order: the relations
+        # are about the values, not about the order in which a caller lists them
+        k = len(arr)
+        orders = {"ascending": np.arange(k), "descending": np.arange(k)[::-1], "unordered": np.concatenate([np.arange(1, k, 2), np.arange(0, k, 2)[::-1]])}
+        for oname, perm in orders.items():
+            grids.append((f"{label}, {oname}", arr, perm))
+    for label, arr, perm in grids:
         if arr.size < 2:
             continue
-        rs_a = np.asarray(lib(f"solution_gor_Standing({label})", O.solution_gor_Standing, T, arr, api, sg, gor), float)
-        bo_a = np.asarray(lib(f"b_o_Standing({label})", O.b_o_Standing, T, arr, api, sg, gor), float)
+        given = arr[perm].copy()
+        inv = np.argsort(perm)
+        rs_a = np.asarray(lib(f"solution_gor_Standing({label})", O.solution_gor_Standing, T, given, api, sg, gor), float)
+        bo_a = np.asarray(lib(f"b_o_Standing({label})", O.b_o_Standing, T, given, api, sg, gor), float)
+        if rs_a.shape == given.shape and bo_a.shape == given.shape:
+            rs_a, bo_a = rs_a[inv], bo_a[inv]  # back to ascending pressure for the relations below
         pa = arr.astype(float)
         if rs_a.shape != pa.shape or bo_a.shape != pa.shape or not (np.all(np.isfinite(rs_a)) and np.all(np.isfinite(bo_a))):
             res.bad("C12/finite", f"{label}: Rs / Bo not finite or wrong shape on {list(arr)[:6]}... oil={o}")
